@@ -21,7 +21,7 @@ REPLAYS = os.path.join(EVID, "replays")
 REPO = os.environ.get("VERIF_REPO", "/repo")
 SEED = int(os.environ.get("VERIF_SEED", "0") or 0)
 NCPU = min(16, os.cpu_count() or 4)
-TLC_JAR = "/opt/veriftools/tla/tla2tools.jar"
+TLC_JAR = "/opt/veriftools/tla/tla2tools.jar:/opt/veriftools/tla/CommunityModules-deps.jar"
 
 
 class MachineryError(Exception):
